@@ -350,6 +350,10 @@ def run(ctx):
         raw = [d for _bi, d in seeks if {"vertex_data_offset", "vertex_buffer_offsets"} <= d.names and "offset" not in d.names and "Mul" in d.ops]
         ctx.ob("SEEK", "raw-streams", len(raw) == 1 and "vertex_buffer_strides" in raw[0].names, f"raw stream seek derives from {sorted(raw[0].names) if raw else None}; must be LOD offset + stream offset + z * stride", b.file, b.line)
         ctx.floor("SEEK", "seek sites in MDL::from_existing", len(seeks), 3)
+        # every one of them addresses the file from its start and computes the position with + and * only
+        from ..posrule import seeks_from_start_sum_only
+
+        seeks_from_start_sum_only(ctx, "SEEK", b, "from_existing", allow_ops=("Mul", "MulWithOverflow"))
         # the element seek is executed for every element: its block dominates the (usage, type) switch
         usw = D.discr_switches(b, "model_vertex_declarations::VertexUsage")
         elem_bb = [bi for bi, t_ in b.calls() if (t_.get("res") or "").endswith("Seek>::seek") and len(t_["args"]) == 2 and {"vertex_data_offset", "vertex_buffer_offsets", "vertex_buffer_strides", "stream", "offset"} <= derive(ix, t_["args"][1]).names]
